@@ -179,7 +179,7 @@ prop("C15", "exploration",
      crash_owner=True)
 
 prop("C05", "exploration",
-     quick=[("corrupt", "san", 100), ("corrupt", "fast", 1200), ("corruptgrid", "san", 180), ("corruptgrid", "fast", 540)],
+     quick=[("corrupt", "san", 600), ("corrupt", "fast", 1200), ("corruptgrid", "san", 180), ("corruptgrid", "fast", 540)],
      thorough=[("corrupt", "san", 40000), ("corrupt", "fast", 120000), ("corruptgrid", "san", 5400), ("corruptgrid", "fast", 27000)],
      relevant=["corruptions", "page_corruptions"],
      rule="storage-fault histories on all 18 schemas under ASan+UBSan+_GLIBCXX_ASSERTIONS: a library with fully analysed tracks (library- "
